@@ -475,6 +475,25 @@ fn variant(base: &[ModeSpec], v: usize) -> Option<Vec<ModeSpec>> {
         12 => { m.truncate(1); m[0].trans.clear(); m[0].name = "INITIAL".into(); }
         13 => m[0].pats[0].p = "\\p{Greek}".into(), // registers a class and then fails to build (unknown Unicode class): must not affect later builds
         14 => { m[0].pats[0].p = "\\p{Greek}".into(); let l = m[0].pats.len() - 1; m[0].pats[l].p = "(".into(); }
+        15 => {
+            // the border between two adjacent texts of the key moved by one character (`ab`,`q1` -> `a`,`bq1`; `x(?=bc)`,`q1` -> `x(?=b)`,`cq1`): a key that
+            // concatenates or streams the texts without separators / lengths confuses the two configurations
+            let n = m[0].pats.len();
+            if n < 2 { return None; }
+            let plain = |t: &str| t.len() >= 2 && t.chars().all(|ch| ch.is_ascii_alphanumeric());
+            let left = match &m[0].pats[n - 2].la { Some((_, l)) => l.clone(), None => m[0].pats[n - 2].p.clone() };
+            if !plain(&left) || !m[0].pats[n - 1].p.chars().all(|ch| ch.is_ascii_alphanumeric()) { return None; }
+            let (head, last) = left.split_at(left.len() - 1);
+            match &mut m[0].pats[n - 2].la { Some((_, l)) => *l = head.to_string(), None => m[0].pats[n - 2].p = head.to_string() }
+            m[0].pats[n - 1].p = format!("{}{}", last, m[0].pats[n - 1].p);
+        }
+        16 => {
+            // flood: more distinct successful builds through the cache than any bounded cache would keep (1100), then the base configuration again
+            for i in 0..1100 {
+                let cfg = vec![ModeSpec { name: "F".into(), pats: vec![PatSpec { p: format!("f{}x{}", i, m[0].pats.last().map(|p| p.p.clone()).unwrap_or_default()), tt: i, la: None }], trans: vec![] }];
+                let _ = ScannerBuilder::new().add_scanner_modes(&to_modes(&cfg)).build();
+            }
+        }
         _ => return None,
     }
     Some(m)
@@ -500,6 +519,13 @@ fn to_modes(ms: &[ModeSpec]) -> Vec<ScannerMode> {
 }
 fn run_cache_case(c: &Case) -> Result<(), String> {
     let r = catch_unwind(AssertUnwindSafe(|| {
+        // the input is followed by the plain texts of the base configuration, so that every literal pattern / lookahead is exercised
+        let mut extra = String::new();
+        for p in &c.modes[0].pats {
+            if p.p.chars().all(|ch| ch.is_ascii_alphanumeric()) { extra.push_str(&p.p); }
+            if let Some((_, l)) = &p.la { if l.chars().all(|ch| ch.is_ascii_alphanumeric()) { extra.push_str(l); } }
+        }
+        let c = &Case { input: format!("{}{}", c.input, extra), ..c.clone() };
         for op in &c.ops {
             let v = match op { Op::SetMode(v) => *v, _ => 0 };
             let Some(cfg) = variant(&c.modes, v) else { continue };
@@ -935,6 +961,8 @@ fn gen_supported(r: &mut Rng, depth: usize) -> String {
 fn gen_unsupported(r: &mut Rng, depth: usize) -> String {
     const BAD: &[&str] = &["^", "$", "\\b", "\\B", "(?i)", "a*?", "a+?", "a??", "(?i:a)", "a{1,2}?", "\\A", "\\z", "(?s-i:b)", "(?-i:a)", "(?-ms:a.b)", "(?i-s:a)", "(?x)", "(?U:a)",
         "\\pl", "\\p{alphabetic}", "\\p{Foo}", "\\pX", "\\p{scx=Latin}", "\\p{sc=Greek}", "\\P{uppercase}",
+        // unknown / valued classes as one of several items of a bracketed class, nested, under set operators
+        "[a-z\\p{Foo}]", "[_\\p{sc=Greek}0-9]", "[^[ab\\pX]]", "[\\p{Foo}]", "[a&&\\p{Foo}]", "[a-c--\\pX]", "[\\d\\p{alphabetic}]", "[x[^\\p{Foo}]y]", "[\\pl\\pL]",
         // syntax errors
         "a)", "end)", "(a", "[a", "a{2,1}"];
     if depth == 0 { return r.pick(BAD).to_string(); }
@@ -943,7 +971,7 @@ fn gen_unsupported(r: &mut Rng, depth: usize) -> String {
         1 => format!("{}{}", gen_supported(r, depth - 1), gen_unsupported(r, depth - 1)),
         2 => format!("{}{}", gen_unsupported(r, depth - 1), gen_supported(r, depth - 1)),
         3 => format!("(?:{}|{})", gen_supported(r, depth - 1), gen_unsupported(r, depth - 1)),
-        4 => format!("(?:{}){}", gen_unsupported(r, depth - 1), r.pick(&["*", "+", "?", "{2}"])),
+        4 => format!("(?:{}){}", gen_unsupported(r, depth - 1), r.pick(&["*", "+", "?", "{2}", "{0}", "{0,0}", "{0,1}", "{0,}"])),
         _ => format!("(?:{}|{}|{})", gen_supported(r, 0), gen_supported(r, 0), gen_unsupported(r, depth - 1)),
     }
 }
@@ -1217,9 +1245,20 @@ fn gen_case(family: &str, r: &mut Rng) -> Case {
                 }
                 modes.push(ModeSpec { name: format!("M{mi}"), pats, trans });
             }
-            let input = gen_input(r, 10);
+            let mut input = gen_input(r, 10);
+            // border-shifted twins: two modes with the same token-type sequence whose pattern texts concatenate to the same string (`ab`,`c` / `a`,`bc`): anything that
+            // identifies a mode's automaton by its joined pattern text or by its token types confuses them; the twin is entered by a transition and by set_mode
+            if family == "modes" && nm >= 2 && r.below(5) == 0 {
+                let (x, y, z) = (*r.pick(&['a', 'b', 'c']), *r.pick(&['a', 'b', 'c']), *r.pick(&['a', 'b', 'c']));
+                modes[0].pats = vec![PatSpec { p: format!("{x}{y}"), tt: 0, la: None }, PatSpec { p: format!("{z}"), tt: 1, la: None }];
+                modes[1].pats = vec![PatSpec { p: format!("{x}"), tt: 0, la: None }, PatSpec { p: format!("{y}{z}"), tt: 1, la: None }];
+                modes[0].trans = if r.below(2) == 0 { vec![(1, 1)] } else { vec![] };
+                modes[1].trans = if r.below(2) == 0 { vec![(1, 0)] } else { vec![] };
+                input = format!("{x}{y}{z}{x}{y}{z}{}", input);
+            }
             let b = boundaries(&input);
             let mut ops = vec![];
+            if family == "modes" && nm >= 2 && r.below(3) == 0 { ops.push(Op::SetMode(1)); }
             if family == "isolation" {
                 if r.below(2) == 0 {
                     ops.push(Op::ScannerSetMode(r.below(nm)));
@@ -1257,8 +1296,13 @@ fn gen_case(family: &str, r: &mut Rng) -> Case {
             pats2.push(PatSpec { p: uniq, tt: 91, la: None });
             let input = gen_input(r, 7);
             let nops = 2 + r.below(5);
-            let mut ops: Vec<Op> = (0..nops).map(|_| Op::SetMode(r.below(15))).collect();
+            let mut ops: Vec<Op> = (0..nops).map(|_| Op::SetMode(r.below(16))).collect();
             if r.below(2) == 0 { ops.insert(0, Op::SetMode(0)); ops.insert(0, Op::SetMode(9)); }
+            if r.below(3) == 0 { ops.insert(0, Op::SetMode(15)); ops.insert(0, Op::SetMode(0)); }
+            if !CACHE_FLOODED.swap(true, std::sync::atomic::Ordering::SeqCst) {
+                // once per run: base and a near twin, the flood, then both again
+                ops = vec![Op::SetMode(0), Op::SetMode(1), Op::SetMode(16), Op::SetMode(0), Op::SetMode(1), Op::SetMode(5)];
+            }
             let t0 = pats[0].tt;
             Case { family: family.into(), modes: vec![ModeSpec { name: "M0".into(), pats, trans: if r.below(2) == 0 { vec![(t0, 1)] } else { vec![] } },
                                                        ModeSpec { name: "M1".into(), pats: pats2, trans: vec![] }],
@@ -1367,6 +1411,7 @@ fn usable(c: &Case) -> bool {
     true
 }
 
+static CACHE_FLOODED: std::sync::atomic::AtomicBool = std::sync::atomic::AtomicBool::new(false);
 static NAMED_LEAF_NEXT: std::sync::atomic::AtomicUsize = std::sync::atomic::AtomicUsize::new(0);
 fn main() {
     std::panic::set_hook(Box::new(|_| {}));
